@@ -196,6 +196,7 @@ enum Pull {
     End,
 }
 
+#[derive(Clone)]
 pub struct Model {
     pub mode: Mode,
     cmds: Vec<MCmd>,
@@ -477,6 +478,19 @@ impl Model {
                 receiver_alive: r.receiver_alive,
             })
             .collect()
+    }
+
+    /// Canonical text of the complete model state (hidden state included): two models with the
+    /// same fingerprint behave identically from here on
+    pub fn fingerprint(&self) -> String {
+        let mut handles: Vec<_> = self.handles.iter().collect();
+        handles.sort();
+        let mut holds: Vec<_> = self.holds.iter().collect();
+        holds.sort();
+        format!(
+            "{:?}|{:?}|{:?}|{:?}|{:?}|{:?}",
+            self.cmds, self.tasks, self.reqs, self.roots, handles, holds
+        )
     }
 
     pub fn abort_handles(&self) -> Vec<u32> {
